@@ -237,17 +237,18 @@ inductive PosDischarge
   | sameFile      -- both positions belong to the analysed source file (objects filtered by file name just before)
 deriving DecidableEq, Repr
 
-def expectedPosOrders : List (PosOrder × PosDischarge) := [
-  (⟨"analysis/analysis.go", "NewAnalysisFromFile", "objs[i].Pos() < objs[j].Pos()"⟩, .sameFile),
-  (⟨"analysis/analysis.go", "nodeAtFile", "n.Pos() <= pos"⟩, .containment),
-  (⟨"analysis/analysis.go", "nodeAtFile", "pos < n.End()"⟩, .containment),
-  (⟨"analysis/httpapi/parse.go", "resolveFunc", "n.Pos() <= pos"⟩, .containment),
-  (⟨"analysis/httpapi/parse.go", "resolveFunc", "pos < n.End()"⟩, .containment),
-  (⟨"analysis/httpapi/parse.go", "selectFileByPos", "file.Pos() <= pos"⟩, .containment),
-  (⟨"analysis/httpapi/parse.go", "selectFileByPos", "pos <= file.End()"⟩, .containment)
+/-- the functions that compare token positions, with what they compare. The discharge is per
+function (not per expression): a rewrite of the comparison inside one of them keeps the obligation,
+a position comparison in any other function breaks it. -/
+def expectedPosOrders : List (String × String × PosDischarge) := [
+  ("analysis/analysis.go", "NewAnalysisFromFile", .sameFile),   -- objs[i].Pos() < objs[j].Pos(), objects of the one analysed file
+  ("analysis/analysis.go", "nodeAtFile", .containment),          -- n.Pos() <= pos && pos < n.End(), nodes of the file given by the caller
+  ("analysis/httpapi/parse.go", "resolveFunc", .containment),    -- n.Pos() <= pos && pos < n.End()
+  ("analysis/httpapi/parse.go", "selectFileByPos", .containment) -- file.Pos() <= pos && pos <= file.End()
 ]
 
-def posOrdersDischarged : Bool := posOrders.all fun r => expectedPosOrders.any fun e => e.1 == r
+def posOrdersDischarged : Bool :=
+  posOrders.all fun r => expectedPosOrders.any fun e => e.1 == r.file && e.2.1 == r.func
 
 /-- **regenerated obligation**: every ordering comparison on token positions in the current sources
 is one of the file-local ones -/
